@@ -623,7 +623,7 @@ def _c17_self_consistency(ctx):
                 mm = {"exception": type(ex).__name__}
             if mm != {}:
                 report(ctx, "mismatch", case, "the mismatch checker says %s for a sequence IterateSATGen returned for a Nest "
-                       "with an outer preamble: %s" % (mm, json.dumps(e)[:300]), None, known_for(case.regs, "C17", "mismatch:self"))
+                       "with an outer preamble: %s" % (mm, json.dumps(e)[:300]), None, None)
                 return
 
 
